@@ -15,7 +15,7 @@
 (*               where the property promises one, every field free of      *)
 (*               separator characters (C10).                                *)
 (***************************************************************************)
-EXTENDS JasmObjdump, Json, IOUtils
+EXTENDS JasmObjdump, JasmObserve, Json, IOUtils
 
 Data == JsonDeserialize(IOEnv.JASM_CASES)
 Cases == Data.cases
@@ -68,7 +68,17 @@ CheckPair(c) ==
     ELSE IF c.stream # c.stream2 THEN "rej:C16_VariantStream"
     ELSE "ok"
 
-Check(c) == IF c.mode = "abs" THEN CheckAbs(c) ELSE IF c.mode = "pair" THEN CheckPair(c) ELSE CheckText(c)
+\* mode "range" (C18): the same real listing parsed without (stream) and with (stream2) a
+\* valid_addr_range c.range: the second must be an allowed tagging of the first
+CheckRange(c) ==
+    IF c.outcome # "ok" THEN "skip:ParserFailsAnyway"
+    ELSE IF c.outcome2 # "ok" THEN "rej:C18_RangeMakesItFail"
+    ELSE IF ~StreamWellFormed(c.stream) \/ ~StreamWellFormed(c.stream2) THEN "skip:StreamNotWellFormed"
+    ELSE IF ~AllowedTagging(Decode(c.stream), Decode(c.stream2), c.range[1], c.range[2]) THEN "rej:C18_Tagging"
+    ELSE IF Decode(c.stream) = Decode(c.stream2) THEN "ok:untagged" ELSE "ok:tagged"
+
+Check(c) == IF c.mode = "abs" THEN CheckAbs(c) ELSE IF c.mode = "pair" THEN CheckPair(c)
+            ELSE IF c.mode = "range" THEN CheckRange(c) ELSE CheckText(c)
 
 (***************************************************************************)
 (* Input classes of recorded known findings (known_findings.json)          *)
@@ -94,7 +104,7 @@ KD_NoRawInsn(c) ==
 Tags(c) == (IF c.mode = "text" /\ KD_BranchHint(c) THEN "|KD_BranchHint" ELSE "")
            \o (IF KD_NoRawInsn(c) THEN "|KD_NoRawInsn" ELSE "")
            \o (IF c.mode = "text" /\ KD_Addr16(c) THEN "|KD_Addr16" ELSE "")
-Verdict(c) == LET v == Check(c) IN IF v = "ok" THEN v ELSE v \o Tags(c)
+Verdict(c) == LET v == Check(c) IN IF SubSeq(v, 1, 3) = "rej" THEN v \o Tags(c) ELSE v
 
 Init == idx \in DOMAIN Cases /\ verdict = "?"
 Next == verdict = "?" /\ verdict' = Verdict(Cases[idx]) /\ UNCHANGED idx
